@@ -48,14 +48,14 @@ def gather_functions(
     to_swap_spq = set()
     to_swap_js = set()
     for n in scl_nodes:
-        has_select = len(shacl_graph.objects(n, SH_select)) > 0
-        has_ask = len(shacl_graph.objects(n, SH_ask)) > 0
+        has_select = len(list(shacl_graph.objects(n, SH_select))) > 0
+        has_ask = len(list(shacl_graph.objects(n, SH_ask))) > 0
         if has_ask or has_select:
             to_swap_spq.add(n)
             continue
         if use_JSFunction:
-            has_jslibrary = len(shacl_graph.objects(n, SH_jsLibrary)) > 0
-            has_jsfuncitonnname = len(shacl_graph.objects(n, SH_jsFunctionName)) > 0
+            has_jslibrary = len(list(shacl_graph.objects(n, SH_jsLibrary))) > 0
+            has_jsfuncitonnname = len(list(shacl_graph.objects(n, SH_jsFunctionName))) > 0
             if has_jslibrary or has_jsfuncitonnname:
                 to_swap_js.add(n)
     for n in to_swap_spq:
